@@ -194,12 +194,13 @@ func settledWalkers() int {
 }
 
 type lockRun struct {
-	bound time.Duration // bound of the next scenario as a whole, when it is a series of operations (0: the wedge bound)
-	out   *json.Encoder
-	lb    *lockBook
-	chain int
-	base  int // walkers leaked by earlier (already reported) scenarios in abandoned books
-	n     int
+	failed int           // scenarios that did not pass so far
+	bound  time.Duration // bound of the next scenario as a whole, when it is a series of operations (0: the wedge bound)
+	out    *json.Encoder
+	lb     *lockBook
+	chain  int
+	base   int // walkers leaked by earlier (already reported) scenarios in abandoned books
+	n      int
 }
 
 func (r *lockRun) fresh() {
@@ -240,6 +241,11 @@ func (r *lockRun) probes() map[string]bool {
 }
 
 func (r *lockRun) scenario(kind string, k int, f func(lb *lockBook) string) {
+	if r.failed >= 8 {
+		// eight scenarios have already shown a wedged node / a leaked walker / a panic: every further one costs its
+		// full time bound and adds nothing to the verdict
+		return
+	}
 	r.n++
 	lb := r.lb
 	var res string
@@ -268,6 +274,7 @@ func (r *lockRun) scenario(kind string, k int, f func(lb *lockBook) string) {
 		"panicked": pv != nil, "res": res, "walkers": walkers, "probes": probes,
 		"probesok": allok})
 	if !allok || walkers != 0 {
+		r.failed++
 		// the book may be wedged for good: abandon it (its goroutines stay) and start a new one
 		r.base = walkerGoroutines()
 		r.fresh()
